@@ -1,21 +1,23 @@
 #!/bin/bash
 # tools/mutcheck.sh <name> <patch.diff | revert:<commit>> <prop> [<prop> ...]
 # Runs the quick checks of the given properties against a scratch worktree of /repo with the change applied
-# (the official procedure - git -C /repo apply - is equivalent; this variant never touches /repo and can run in parallel).
+# (the official procedure - git -C /repo apply, check, git checkout - is equivalent; this variant never touches /repo,
+# works on a private copy of /verif so that /verif can be edited meanwhile, and several can run in parallel).
 set -u
 name=$1; change=$2; shift 2
-wt=/tmp/mc_$name; bd=/tmp/mcb_$name
-git -C /repo worktree remove --force $wt 2>/dev/null; rm -rf $wt $bd
+wt=/tmp/mc_$name; bd=/tmp/mcb_$name; vc=/tmp/mcv_$name
+git -C /repo worktree remove --force $wt 2>/dev/null; rm -rf $wt $bd $vc
 git -C /repo worktree add -q --detach $wt HEAD || exit 2
 if [[ $change == revert:* ]]; then
   git -C $wt revert --no-commit ${change#revert:} || { echo "revert failed"; exit 2; }
 else
   git -C $wt apply $change || { echo "apply failed"; exit 2; }
 fi
+mkdir -p $vc && rsync -a --exclude build --exclude .git --exclude replays --exclude evidence /verif/ $vc/ && mkdir -p $vc/replays $vc/evidence
 for p in "$@"; do
-  VERIF_REPO=$wt VERIF_BUILD=$bd python3 /verif/check.py $p quick > /tmp/mc_${name}_$p.log 2>&1
+  VERIF_REPO=$wt VERIF_BUILD=$bd python3 $vc/check.py $p quick > /tmp/mc_${name}_$p.log 2>&1
   rc=$?
   echo "$name $p exit=$rc $(grep -c '^VIOLATION' /tmp/mc_${name}_$p.log) violation lines; $(tail -1 /tmp/mc_${name}_$p.log | cut -c1-160)"
   grep -m3 "class=" /tmp/mc_${name}_$p.log | cut -c1-260
 done
-git -C /repo worktree remove --force $wt; rm -rf $bd
+git -C /repo worktree remove --force $wt; rm -rf $bd $vc
